@@ -135,13 +135,29 @@ static void check_partition_of(u64 b, u64 e) {
   }
   VP_ASSERT(sum == e - b, "pieces do not cover the range (an element would be skipped)");
 }
-#if ROOT == 1
+#if ROOT == 2
+/* base case of the induction: the REAL parallel_for() builds the root task; check that it owns the whole range and that its
+   partition state satisfies INV, then run this one task (children stay in the bag) */
+static u64 LB, LE; static int root_seen;
+void _ZN3tbb6detail2r116execute_and_waitERNS0_2d14taskERNS2_18task_group_contextERNS2_12wait_contextES6_(task_t* t, ctx_t* c, struct S_class_tbb__detail__d1__wait_context* w, ctx_t* wc) {
+  u64 r[3], q[5]; vp_task_range(t, r); vp_task_part(t, q);
+  root_seen++;
+  VP_ASSERT(r[0] == LB && r[1] == LE && r[2] == G, "root task does not own the whole iteration space");
+  VP_ASSERT(inv_part(q), "root task's partition state violates the invariant assumed by the task step lemma");
+  VP_ASSERT(c == wc, "task context and wait context differ");
+  run_one(t, c);
+}
+#elif ROOT == 1
 static u64 LB, LE;
 void _ZN3tbb6detail2r116execute_and_waitERNS0_2d14taskERNS2_18task_group_contextERNS2_12wait_contextES6_(task_t* t, ctx_t* c, struct S_class_tbb__detail__d1__wait_context* w, ctx_t* wc) {
   bag[0] = t; nbag = 1;
   for (int step = 0; step < MAXT; step++) if (nbag > 0) {
     VP_ASSERT(nnotify == 0, "wait released while tasks are still pending");
+#ifdef ORDER
+    int k = ((ORDER >> step) & 1) ? nbag - 1 : 0;   /* owner-like (newest) or thief-like (oldest): concrete per query */
+#else
     int k = vp_nd_bool() ? nbag - 1 : 0;            /* owner-like (newest) or thief-like (oldest) */
+#endif
     task_t* x = bag[k];
     for (int i = 0; i < MAXC - 1; i++) if (i >= k && i < nbag - 1) bag[i] = bag[i + 1];
     nbag--;
@@ -159,11 +175,32 @@ int main(void) {
   u64 b = vp_nd(), e = vp_nd(), g = vp_nd();
   __CPROVER_assume(g >= 1);
   G = g;
-#if ROOT == 1
+#if ROOT == 2
+  __CPROVER_assume(b <= e && (b == e || ((e - b - 1) >> K) < g));   /* empty, or 1 <= size <= grainsize * 2^K */
+#ifdef GFIX
+  __CPROVER_assume(g == GFIX && b == BFIX);
+#endif
+  LB = b; LE = e;
+  vp_run(b, e, g);
+  if (b == e) {
+    VP_ASSERT(nR == 0 && nalloc == 0 && root_seen == 0, "empty range: body called / task created");
+  } else {
+    VP_ASSERT(root_seen == 1, "non-empty range: not exactly one root task handed to execute_and_wait");
+    check_partition_of(b, e);
+    for (int i = 0; i < MAXC; i++) if (i < nbag) {
+      u64 q[5]; vp_task_part(bag[i], q);
+      VP_ASSERT(inv_part(q), "spawned task's partition state violates the invariant (divisor underflow / head out of range / divisor not a multiple of factor)");
+    }
+    VP_ASSERT(nnotify == (nspawn == 0), "wait released although children are pending / not released by the last task");
+  }
+#elif ROOT == 1
   /* whole loop; the range may be empty */
   __CPROVER_assume(b <= e && e - b <= NMAX);
 #ifdef GFIX
   __CPROVER_assume(g == GFIX);
+#endif
+#ifdef BFIX
+  __CPROVER_assume(b == BFIX);
 #endif
   LB = b; LE = e;
   vp_run(b, e, g);
